@@ -170,7 +170,10 @@ def setup(concepts, spec):
 
 def cases(tier, seed, spec):
     # a few contexts with thousands of objects and a tiny lattice (size thresholds in the enumeration)
-    yield from (c for c in gen.huge(seed, 4 if tier == 'quick' else 16) if c['fam'].endswith('tall'))
+    # (only the sparse ones: Lindig costs about |objects|^2 big-int operations per concept with a
+    # large extent, a dense 6 000-object table takes minutes)
+    yield from (c for c in gen.huge(seed, 8 if tier == 'quick' else 32)
+                if c['fam'].endswith('tall') and len(c['objects']) > 4300 and sum(1 for r in c['rows'] if r) < 200)
     yield from gen.biglat(tier)
     yield from gen.ctx_stream(tier, seed)
 
